@@ -54,6 +54,7 @@ class Unit:
         self.anchors = []  # (file, regex)
         self.includes = []
         self.requires = []
+        self.crate_attrs = []
         self.harnesses = []  # dicts
         self.body = ""
         self._parse()
@@ -95,6 +96,8 @@ class Unit:
                     self.includes.append(v)
                 elif k == "requires-unit":
                     self.requires.append(v)
+                elif k == "crate-attr":
+                    self.crate_attrs.append(v)
         if not self.name or not self.inject_into:
             raise SystemExit(f"unit {self.path}: missing //@ unit / inject-into header")
 
@@ -167,7 +170,18 @@ def include_text(name):
 
 
 def inject(scratch, units, extra_tests=None):
-    """Append each unit as a cfg(kani) child module of its target file."""
+    """Append each unit as a cfg(kani) child module of its target file.  The only text ever put
+    *before* repository text is `#![cfg_attr(kani, <attr>)]` lines at the top of lib.rs, for units that
+    declare `//@ crate-attr:` (nightly feature gates used by harness-only static constructors)."""
+    attrs = []
+    for u in units:
+        for a in u.crate_attrs:
+            if a not in attrs:
+                attrs.append(a)
+    if attrs:
+        lib = os.path.join(scratch, CRATE_DIR, "src", "lib.rs")
+        txt = open(lib).read()
+        open(lib, "w").write("".join(f"#![cfg_attr(kani, {a})]\n" for a in attrs) + txt)
     for u in units:
         p = os.path.join(scratch, u.inject_into)
         parts = [f"\n\n// ===== appended by /verif/engine (unit {u.name}); everything above is the repository's text =====\n",
